@@ -201,6 +201,8 @@ PROPS = {
             {"name": "o_c05", "module": "pa", "quick": 5000, "thorough": 80000, "kind": "oracle", "profiles": ["debug", "release"],
              "args": {"kind": "safe"}},
             {"name": "pa", "module": "pam", "quick": 2000, "thorough": 30000, "profiles": ["debug", "release"], "oracle_prefix": ["o_c05", "o_c01", "o_rt"]},
+            {"name": "o_skip", "module": "pa", "quick": 1500, "thorough": 20000, "kind": "oracle", "profiles": ["debug"],
+             "args": {"kind": "skip"}},
             {"name": "rn", "module": "rn", "quick": 1000, "thorough": 20000, "profiles": ["debug"], "oracle_prefix": "o_rn"},
             {"name": "pa_fixed", "module": "fixed", "quick": 0, "thorough": 0, "kind": "oracle", "profiles": ["debug", "release"]},
         ],
@@ -219,13 +221,16 @@ PROPS = {
              "args": {"kind": "expect"}},
             {"name": "limits", "module": "pa", "quick": 300, "thorough": 300, "kind": "oracle", "profiles": ["debug", "release"],
              "args": {"kind": "limits"}},
+            {"name": "o_skip", "module": "pa", "quick": 2000, "thorough": 30000, "kind": "oracle", "profiles": ["debug", "release"],
+             "args": {"kind": "skip"}},
             {"name": "tx_digits", "module": "tx", "quick": 2000, "thorough": 20000, "profiles": ["debug", "release"], "args": {"kind": "digits"}},
             {"name": "pa", "module": "pam", "quick": 2000, "thorough": 30000, "profiles": ["debug"], "oracle_prefix": ["o_c01", "o_rt", "o_c05"]},
         ],
         "rule": "values generated first, rendered with random layout, expected items computed independently of the parsers "
                 "(Python big integers); limit cases: every declared limit and every type limit at value-1, value, value+1 (literals vs "
                 "variable count, clause count vs clean end, groups, MAX_DIMACS per type, AIGER M/I/L/O/A/B/C/J/F and literal codes, "
-                "binary deltas), with and without ignore_header; digit scanners against the model on boundary numerals",
+                "binary deltas), with and without ignore_header; digit scanners against the model on boundary numerals; the AIGER "
+                "streaming API taking at most N entries per section (the section-switch methods skip — and must still check — the rest)",
         "theorems_note": "Props/C06.v: scanners return exactly the decimal value or None (all admissible runs), limits of the literal "
                          "types fit, varint exact; token-level and end-to-end limit theorems for the DIMACS family and solver logs",
         "assumes": ["AIGER/BTOR2 limit enforcement: model = code (pa stream) + limits oracle, theorems pending (partial)"],
